@@ -652,7 +652,16 @@ func c11Units(thorough bool) []*explore.Unit {
 					if strings.HasPrefix(m1.name, "frame-") || strings.HasPrefix(m2.name, "frame-") {
 						continue
 					}
-					add(k, m1.name+"+"+m2.name, func(id uint32) []byte { p := k.base(id); m1.f(p); m2.f(p); return p.bytes() }, false, m1.huge || m2.huge, nil)
+					add(k, m1.name+"+"+m2.name, func(id uint32) []byte {
+						p := k.base(id)
+						m1.f(p)
+						// the second mutation may not be applicable any more (it addresses a part the first removed)
+						func() {
+							defer func() { recover() }()
+							m2.f(p)
+						}()
+						return p.bytes()
+					}, false, m1.huge || m2.huge, nil)
 				}
 			}
 		}
